@@ -36,13 +36,13 @@ enum { C_OPENDIR = 1, C_READDIR, C_DIRENT, C_STAT, C_OPEN, C_READ, C_READLINK, C
 static const char *call_names[] = {"?", "opendir", "readdir", "dirent", "stat", "open", "read", "readlink", "realpath"};
 
 enum { OV_MODE = 1, OV_PERM = 2, OV_UID = 4, OV_GID = 8, OV_NLINK = 16, OV_SIZE = 32, OV_BLOCKS = 64,
-       OV_MTIME = 128, OV_ATIME = 256, OV_CTIME = 512, OV_BTIME = 1024, OV_INO = 2048, OV_DEV = 4096 };
+       OV_MTIME = 128, OV_ATIME = 256, OV_CTIME = 512, OV_BTIME = 1024, OV_INO = 2048, OV_DEV = 4096, OV_DINO = 8192 };
 
 typedef struct Node {
     unsigned long ino;
     char *rel;
     unsigned ov;
-    unsigned long o_mode, o_uid, o_gid, o_nlink, o_size, o_blocks, o_ino, o_dev;
+    unsigned long o_mode, o_uid, o_gid, o_nlink, o_size, o_blocks, o_ino, o_dev, o_dino;
     long long o_mtime, o_atime, o_ctime, o_btime;
     char **order; int norder;
     int dtype_unknown;
@@ -257,6 +257,7 @@ static void parse_plan(char *text) {
                             else if (!strcmp(t, "btime")) { n->ov |= OV_BTIME; n->o_btime = strtoll(v, NULL, 10); }
                             else if (!strcmp(t, "ino")) { n->ov |= OV_INO; n->o_ino = strtoul(v, NULL, 10); }
                             else if (!strcmp(t, "dev")) { n->ov |= OV_DEV; n->o_dev = strtoul(v, NULL, 10); }
+                            else if (!strcmp(t, "dino")) { n->ov |= OV_DINO; n->o_dino = strtoul(v, NULL, 10); } /* d_ino of a mount point: the covered directory's number */
                             else die("plan: stat field");
                         }
                     } else if (!strcmp(kw, "fail")) {
@@ -748,7 +749,8 @@ struct dirent64 *readdir64(DIR *dp) {
     ds->cur = *e;
     Node *cn = isdot ? NULL : node_by_ino(e->d_ino);
     if (!isdot) ds->delivered++;
-    if (cn && (cn->ov & OV_INO)) ds->cur.d_ino = cn->o_ino;
+    if (cn && (cn->ov & OV_DINO)) ds->cur.d_ino = cn->o_dino;
+    else if (cn && (cn->ov & OV_INO)) ds->cur.d_ino = cn->o_ino;
     if (dn->dtype_unknown && !isdot) ds->cur.d_type = DT_UNKNOWN;
     logline("readdir %s -> %s type=%d", enc(dn->rel, e2, sizeof e2), enc(ds->cur.d_name, e1, sizeof e1), (int)ds->cur.d_type);
     if (cn) run_mutations(C_DIRENT, cn);
